@@ -311,3 +311,16 @@ func (c *Cond) Broadcast() {
 	}
 	c.waiters = nil
 }
+
+func OnceValue[T any](f func() T) func() T {
+	var o Once
+	var v T
+	return func() T { o.Do(func() { v = f() }); return v }
+}
+
+func OnceValues[T1, T2 any](f func() (T1, T2)) func() (T1, T2) {
+	var o Once
+	var a T1
+	var b T2
+	return func() (T1, T2) { o.Do(func() { a, b = f() }); return a, b }
+}
